@@ -361,3 +361,25 @@ def parse_typed(line):
     if line.startswith("<Bool>"):
         return "T" + line[6:]
     return None
+
+
+# ----------------------------------------------------------------------------- independent proof checker (thorough tier)
+def coqchk(ctx, modules):
+    """re-check the compiled proofs with coqchk (the standalone checker) and compare the axioms it reports
+    with the allow-list; recorded in the evidence, a failure is reported as a broken proof"""
+    import re
+    with core.Lock("coq"):
+        rc, out, err = core.sh(["timeout", "1500", "coqchk", "-silent", "-o", "-Q", ".", "MS"] + modules, cwd=core.COQ, timeout=1600)
+    text = out.decode("utf8", "replace") + err.decode("utf8", "replace")
+    axioms = []
+    m = re.search(r"\* Axioms:(.*?)\n\s*\n\* ", text, re.S)
+    if m:
+        axioms = [a.strip() for a in m.group(1).split("\n") if a.strip() and a.strip() != "<none>"]
+    bad = [a for a in axioms if a not in core.AXIOM_ALLOW and a.split(".")[-1] not in core.AXIOM_ALLOW]
+    unsafe = [l.strip() for l in text.split("\n") if l.strip().startswith("* Constants/Inductives relying on") or l.strip().startswith("* Inductives whose positivity")]
+    clean = rc == 0 and not bad and all(u.endswith("<none>") for u in unsafe)
+    ctx.cov["coqchk"] = {"cmd": "cd /verif/coq && coqchk -silent -o -Q . MS " + " ".join(modules), "rc": rc, "axioms": axioms, "clean": clean}
+    if not clean:
+        ctx.report("proof-broken:coqchk", "coqchk rejects the compiled development or reports unexpected axioms: rc=%s %s %s" % (rc, bad, text[-600:]),
+                   {"modules": modules, "rc": rc, "unexpected_axioms": bad, "tail": text[-2000:]}, found_input=False)
+    return clean
